@@ -43,6 +43,9 @@ pub mod server;
 #[cfg(test)]
 pub(crate) mod test_utils;
 pub mod tls;
+#[cfg(feature = "verif-hooks")]
+#[doc(hidden)]
+pub mod verif;
 
 pub use crate::{
     key_cache::KeyCache,
